@@ -53,7 +53,7 @@ func runC33(p *core.Program, r *core.Report) {
 		return strings.HasPrefix(fk, "(*ui.TextBuilder).") || fk == "ui.TextFromSegment" || fk == "ui.Concat"
 	}
 	for _, fn := range p.FnsInPkg(pkgUI) {
-		fk := core.FnKey(fn)
+		fk := core.FnKey(uniqueCallerRoot(p, fn, 0))
 		core.Instrs(fn, func(ins ssa.Instruction) {
 			kind := ""
 			var nElems int = -1
